@@ -101,7 +101,11 @@ impl RefVerdict {
 }
 
 pub fn fmt_init(i: &InitState) -> String {
-    i.desc.iter().map(|(n, v)| format!("{}={:#x}", n, v)).collect::<Vec<_>>().join(" ")
+    let mut s = i.desc.iter().map(|(n, v)| format!("{}={:#x}", n, v)).collect::<Vec<_>>().join(" ");
+    if i.entry != 0 {
+        s.push_str(&format!(" (entry: C={} Z={} N={} V={} A={:#x} cctmp={:#x})", i.entry & 1, (i.entry >> 1) & 1, (i.entry >> 2) & 1, (i.entry >> 3) & 1, exec::ENTRY_A[(i.entry as usize >> 1) % 4], exec::ENTRY_TMP[i.entry as usize % 3]));
+    }
+    s
 }
 
 fn prog_has_shr(p: &Program) -> bool {
